@@ -131,7 +131,7 @@ pub fn strip_file(input: &str, output: &str) -> i32 {
     let src = match std::fs::read_to_string(input) {
         Ok(s) => s,
         Err(e) => {
-            eprintln!("HARNESS-ERROR: cannot read {}: {}", input, e);
+            println!("HARNESS-ERROR: cannot read {}: {}", input, e);
             return 2;
         }
     };
@@ -144,7 +144,7 @@ pub fn strip_file(input: &str, output: &str) -> i32 {
             0
         }
         Err(e) => {
-            eprintln!("HARNESS-ERROR: {}", e);
+            println!("HARNESS-ERROR: {}", e);
             2
         }
     }
